@@ -42,6 +42,22 @@ CLAIMED = {
    technique='proptest generation of push-constant types/usages; WGSL size from an independent layout model; descriptor read with syn (wide) and recorded by the fake device (executed)',
    text='Thousands of generated shaders with and without a push constant of scalar/vector/matrix/array/padded-struct type, used directly, through helpers, by a subset of stages or not at all: exactly one range 0..WGSL size iff the variable exists, the range stage set equals PUSH_CONSTANT_STAGES equals the using stages (or all stages with an entry point when unused), no range and no constant otherwise.',
    note='WGSL size comes from the harness\'s own implementation of the spec layout rules.'),
+ 'C12': dict(category='exploration', design_ref='DESIGN.md §5 C12',
+   technique='proptest override sets x value assignments; generated module compiled and executed; map compared with the model and fed to naga process_overrides',
+   text='For hundreds of generated override sets per run (bool/i32/u32/f32, with/without default and @id, dependent defaults) and four value assignments each (extremes and random bit patterns, optional fields set and unset), the probe builds OverrideConstants with an exhaustive explicitly typed literal (rustc checks fields, types, optional-ness), and the evaluated constants() map - also as passed through every vertex/fragment entry helper - must equal the model map bit for bit and be accepted by naga\'s own override resolution with each supplied value arriving as the literal of the override\'s type.',
+   note='naga 24.0.0 back::pipeline_constants::process_overrides is the independent shader-compiler-side oracle.'),
+ 'C14': dict(category='exploration', design_ref='DESIGN.md §5 C14',
+   technique='proptest entry-point sets; generated module compiled and executed on the recording fake device; constants, const-generic arities, recorded descriptors and pointer identity compared with the model',
+   text='Hundreds of generated shaders per run with 0-4 entry points per stage, non-ASCII names, workgroup sizes from literals/constants with missing dimensions, all fragment result shapes (sparse locations, builtins) and 0-3 vertex struct parameters are compiled and executed: name constants, workgroup-size constants, the ComputePipelineDescriptor recorded by each create_*_pipeline (module from SOURCE, own layout, entry name), the const-generic N of every fragment/vertex entry helper, buffers in parameter order with caller step modes, and that vertex_state/fragment_state forward module, name, buffers/targets and constants by reference.',
+   note='Entry names equal up to case (Main/main) are excluded by construction (known finding K2 under C01).'),
+ 'C15': dict(category='exploration', design_ref='DESIGN.md §5 C15',
+   technique='proptest constant declarations with generator-computed exact values; generated module compiled; each constant bound at its expected Rust type and its bits printed',
+   text='Hundreds of generated shaders per run with 1-10 constants each: all scalar types naga accepts, edge values (extremes, subnormals, -0.0, non-representable decimals, 64-bit), inferred types, folded integer/float expressions and conversions, references to earlier constants, non-scalar constants. rustc checks the exported type through a typed binding, the printed value/bit pattern must equal the generator\'s own evaluation, and non-scalar constants must be absent.',
+   note='Expected values are computed by the generator with exact arithmetic on exactly representable operands; naga 24 cannot negate f64 literals, so negative f64 constants cannot be written.'),
+ 'C16': dict(category='exploration', design_ref='DESIGN.md §5 C16',
+   technique='proptest Unicode/escape-rich payloads in comments, identifiers and include paths; round-trip through syn unescaping (wide) and through rustc + include_bytes! (executed)',
+   text='Thousands of shaders per run whose comments carry quotes, backslashes, braces, CR/CRLF, NUL, C0/C1 controls, U+2028/2029, bidi controls, BOM, combining marks, non-BMP and arbitrary scalar values: SOURCE unescaped with syn must equal the input byte for byte; the include variant must be include_str! of exactly the given path (paths with quotes, backslashes, controls) and token-identical elsewhere. A sample is compiled: rustc itself evaluates SOURCE.as_bytes() == include_bytes!(input) under its deny-by-default lints, and the fake device records the string handed to create_shader_module.',
+   note='Payloads are placed in comments and identifiers only (the shader must stay valid WGSL).'),
 }
 PENDING = 'check not built yet in this round (see DESIGN.md §10 build order)'
 
